@@ -45,8 +45,12 @@ func c33FKTraffic(e *ssmEnv, r *vfRng) {
 			qs = append(qs, fmt.Sprintf("UPDATE chi SET pid=%d WHERE id=%d", 1+r.Intn(6), 1+r.Intn(6)))
 		}
 	}
-	if _, _, err := e.s.Execute(context.Background(), executeRequestFromStrings(qs, false, r.Chance(30))); err != nil {
-		e.t.Fatalf("fk traffic: %v", err)
+	fkTx := r.Chance(30)
+	if err := ssmRetry(e.s, func() error {
+		_, _, err := e.s.Execute(context.Background(), executeRequestFromStrings(qs, false, fkTx))
+		return err
+	}); err != nil {
+		e.opFailed("fk traffic", err)
 	}
 	// the model sees a command entry that leaves the kv table alone
 	e.emit("exec 0 d:999", "ok")
@@ -54,10 +58,29 @@ func c33FKTraffic(e *ssmEnv, r *vfRng) {
 	e.rep.Count("op-fk-traffic")
 }
 
+func c33MustExecute(e *ssmEnv, qs []string) {
+	if err := ssmRetry(e.s, func() error {
+		res, _, err := e.s.Execute(context.Background(), executeRequestFromStrings(qs, false, false))
+		if err != nil {
+			return err
+		}
+		for _, r := range res {
+			if r.GetError() != "" {
+				e.t.Fatalf("setup statement failed: %s", r.GetError())
+			}
+		}
+		return nil
+	}); err != nil {
+		e.opFailed("setup statements", err)
+	}
+}
+
 func c33History(t *testing.T, rep *vfReport, r *vfRng, nOps int, fk bool) (ops, impl []string) {
-	e := ssmNewEnv(t, rep, r, "C33", fk)
+	var e *ssmEnv
+	defer ssmGuard(rep, &e, &ops, &impl)
+	e = ssmNewEnv(t, rep, r, "C33", fk)
 	defer e.cleanup()
-	mustExecute(t, e.s, []string{`CREATE TABLE par (id INTEGER PRIMARY KEY)`,
+	c33MustExecute(e, []string{`CREATE TABLE par (id INTEGER PRIMARY KEY)`,
 		`CREATE TABLE chi (id INTEGER PRIMARY KEY, pid INTEGER REFERENCES par(id) ON DELETE CASCADE)`})
 	e.emit("exec 0 d:999", "ok")
 	recoveries := 0
@@ -95,13 +118,21 @@ func c33History(t *testing.T, rep *vfReport, r *vfRng, nOps int, fk bool) (ops, 
 			e.exec(false, e.genStmts()) // make sure there is something to lose before it
 			switch r.Intn(3) {
 			case 0:
-				mustNoop(e.s, "c33")
+				if err := ssmRetry(e.s, func() error {
+					af, err := e.s.Noop("c33")
+					if err != nil {
+						return err
+					}
+					return af.Error()
+				}); err != nil {
+					e.opFailed("noop", err)
+				}
 				tailKind = "noop"
 			case 1:
 				qr := queryRequestFromString("SELECT count(*) FROM kv", false, false, false)
 				qr.Level = proto.ConsistencyLevel_STRONG
-				if _, _, _, err := e.s.Query(context.Background(), qr); err != nil {
-					t.Fatalf("strong read: %v", err)
+				if err := ssmRetry(e.s, func() error { _, _, _, err := e.s.Query(context.Background(), qr); return err }); err != nil {
+					e.opFailed("strong read", err)
 				}
 				tailKind = "strong-read"
 			default:
@@ -263,5 +294,6 @@ func TestVerifC33(t *testing.T) {
 		allOps = append(allOps, ops)
 		allImpl = append(allImpl, impl)
 	}
+	ssmFloor(rep)
 	rep.vfCompareSegments("storesm", allOps, allImpl)
 }
